@@ -303,6 +303,7 @@ func C07(p *load.Prog, r *report.Report) {
 		r.Undecided("C07.model", "layout", "", err.Error())
 		return
 	}
+	m.stateGuard(r, "C07", false, true)
 	scalarDecodePaths(p, r, m, "Decode", false)
 	scalarDecodePaths(p, r, m, "UnmarshalBinary", false)
 	scalarDecodePaths(p, r, m, "DecodeHex", true)
